@@ -2,6 +2,294 @@
 
 package c12xscript
 
-import "testing"
+import (
+	"encoding/json"
+	"fmt"
+	"testing"
 
-func runChain(t *testing.T, s *session, bs []behaviour, n int) {}
+	"github.com/nspcc-dev/neo-go/pkg/core"
+	"github.com/nspcc-dev/neo-go/pkg/core/interop/interopnames"
+	"github.com/nspcc-dev/neo-go/pkg/core/state"
+	"github.com/nspcc-dev/neo-go/pkg/core/transaction"
+	"github.com/nspcc-dev/neo-go/pkg/crypto/hash"
+	"github.com/nspcc-dev/neo-go/pkg/neotest"
+	"github.com/nspcc-dev/neo-go/pkg/neotest/chain"
+	"github.com/nspcc-dev/neo-go/pkg/smartcontract"
+	"github.com/nspcc-dev/neo-go/pkg/smartcontract/manifest"
+	"github.com/nspcc-dev/neo-go/pkg/smartcontract/nef"
+	"github.com/nspcc-dev/neo-go/pkg/smartcontract/trigger"
+	"github.com/nspcc-dev/neo-go/pkg/vm/opcode"
+	"github.com/nspcc-dev/neo-go/pkg/vm/vmstate"
+	"go.uber.org/zap"
+
+	"verifharness/internal/vh"
+)
+
+// The real-chain binding of the same schedules: every loaded script context of a behaviour becomes a CONTRACT
+// deployed on a real single-node chain (neotest), loads become System.Contract.Call (the interop's own
+// callExFromNative: arguments popped as an array and pushed on the callee's stack, LoadNEFMethod with the return
+// count of the manifest, DynamicOnUnload, the _initialize call), the entry script is the transaction's script.  The
+// transaction is executed in a test VM of the chain (Blockchain.GetTestVM: the interop context block processing
+// uses) under the same per-instruction observer, and then in a block: state and gas must agree.
+// Kinds that contract calls can express: "rv1" (a method with a return value) and "cc0" (a void method).
+
+type chainWorld struct {
+	t   testing.TB
+	bc  *core.Blockchain
+	e   *neotest.Executor
+	val neotest.Signer
+	seq int
+}
+
+func newChainWorld(t testing.TB) *chainWorld {
+	bc, acc := chain.NewSingleWithOptions(t, &chain.Options{Logger: zap.NewNop()})
+	e := neotest.NewExecutor(t, bc, acc, acc)
+	e.DisableCoverage()
+	return &chainWorld{t: t, bc: bc, e: e, val: acc}
+}
+
+type patch struct {
+	sb  *sbuild
+	off int
+}
+
+type callee struct {
+	k, kind int
+}
+
+type chainBackend struct {
+	w         *chainWorld
+	name      string
+	patches   map[int][]patch
+	callees   map[int]callee
+	contracts map[int]*neotest.Contract
+	err       error
+}
+
+var sysContractCall = interopnames.ToID([]byte(interopnames.SystemContractCall))
+
+func (b *chainBackend) load(caller *sbuild, idx, k, kind, variant int) {
+	if kind != kRV1 && kind != kCC0 {
+		b.err = fmt.Errorf("load kind %s cannot be expressed as a contract call", kindNames[kind])
+	}
+	a := caller.a
+	a.pushInt(int64(k))
+	a.op(opcode.PACK) // the arguments as an array: [top, ..]
+	a.pushInt(15)     // callflag.All
+	a.pushData([]byte("m"))
+	b.patches[idx] = append(b.patches[idx], patch{caller, a.pos() + 2})
+	a.pushData(make([]byte, 20))
+	a.syscall(sysContractCall)
+	b.callees[idx] = callee{k, kind}
+}
+
+func (b *chainBackend) finished(sb *sbuild) error {
+	if b.err != nil {
+		return b.err
+	}
+	if sb.idx == 0 {
+		return nil
+	}
+	c := b.callees[sb.idx]
+	ne, err := nef.NewFile(sb.a.b)
+	if err != nil {
+		return err
+	}
+	m := manifest.NewManifest(fmt.Sprintf("%s-%d", b.name, sb.idx))
+	md := manifest.Method{Name: "m", Offset: 0, ReturnType: smartcontract.AnyType}
+	if c.kind == kCC0 {
+		md.ReturnType = smartcontract.VoidType
+	}
+	for i := 0; i < c.k; i++ {
+		md.Parameters = append(md.Parameters, manifest.NewParameter(fmt.Sprintf("a%d", i), smartcontract.AnyType))
+	}
+	m.ABI.Methods = append(m.ABI.Methods, md)
+	if sb.init >= 0 {
+		m.ABI.Methods = append(m.ABI.Methods, manifest.Method{Name: manifest.MethodInit, Offset: sb.init, ReturnType: smartcontract.VoidType})
+	}
+	m.Permissions = []manifest.Permission{*manifest.NewPermission(manifest.PermissionWildcard)}
+	h := state.CreateContractHash(b.w.val.ScriptHash(), ne.Checksum, m.Name)
+	b.contracts[sb.idx] = &neotest.Contract{Hash: h, NEF: ne, Manifest: m}
+	for _, p := range b.patches[sb.idx] {
+		copy(p.sb.a.b[p.off:], h.BytesBE())
+	}
+	return nil
+}
+
+func (w *chainWorld) deployTx(c *neotest.Contract) *transaction.Transaction {
+	rawManifest, err := json.Marshal(c.Manifest)
+	if err != nil {
+		w.t.Fatal(err)
+	}
+	neb, err := c.NEF.Bytes()
+	if err != nil {
+		w.t.Fatal(err)
+	}
+	script, err := smartcontract.CreateCallScript(w.bc.ManagementContractHash(), "deploy", neb, rawManifest, nil)
+	if err != nil {
+		w.t.Fatal(err)
+	}
+	tx := transaction.New(script, 0)
+	tx.Nonce = neotest.Nonce()
+	tx.ValidUntilBlock = w.bc.BlockHeight() + 1
+	w.e.SignTx(w.t, tx, 20_0000_0000, w.val)
+	return tx
+}
+
+type chainProg struct {
+	src  string
+	p    *program
+	be   *chainBackend
+	tx   *transaction.Transaction
+	test runOut
+}
+
+const chainSysFee = 2_0000_0000
+
+// runChain realises behaviours as contracts, deploys them (blocks of deployments), runs every transaction in a test VM
+// of the chain under the observer and then in a block.
+func runChain(t *testing.T, s *session, bs []behaviour, n int) {
+	w := newChainWorld(t)
+	res := s.res
+	var progs []*chainProg
+	add := func(src string, h []MStep, v int, noInit, pred bool) {
+		w.seq++
+		be := &chainBackend{w: w, name: fmt.Sprintf("xs%d", w.seq), patches: map[int][]patch{}, callees: map[int]callee{}, contracts: map[int]*neotest.Contract{}}
+		p, err := realize(h, v, be, noInit, pred)
+		if err != nil {
+			res.Inc("chain_not_expressible", 1)
+			return
+		}
+		progs = append(progs, &chainProg{src: src, p: p, be: be})
+	}
+	for i, sp := range scripted() {
+		add("chain-scripted-"+sp.name, sp.hist, i, sp.noInit, false)
+	}
+	progs = append(progs, handChain(w)...)
+	for i, b := range bs {
+		if len(progs) >= n {
+			break
+		}
+		if !expressible(b.Hist) {
+			continue
+		}
+		add(fmt.Sprintf("chain-%s-%d", b.Kind, i), b.Hist, i*7+int(vh.Seed()), false, true)
+	}
+	for i := 0; len(progs) < n+n/3 && i < 4*n; i++ { // seeded random schedules restricted to contract calls
+		h := genRandomKinds(s.r, 30+s.r.Intn(80), 3+s.r.Intn(3), 4+s.r.Intn(5), i%4 == 0, i%8 == 0, []int{kRV1, kRV1, kCC0})
+		add(fmt.Sprintf("chain-random-%d", i), h, i, false, false)
+	}
+	// deployments
+	var txs []*transaction.Transaction
+	flush := func() {
+		if len(txs) == 0 {
+			return
+		}
+		w.e.AddNewBlock(t, txs...)
+		for _, tx := range txs {
+			if aer := w.e.GetTxExecResult(t, tx.Hash()); aer.VMState != vmstate.Halt {
+				t.Fatalf("deployment failed: %s", aer.FaultException)
+			}
+		}
+		txs = txs[:0]
+	}
+	for _, cp := range progs {
+		for idx := 1; idx < len(cp.p.Scripts); idx++ {
+			c := cp.be.contracts[idx]
+			if c == nil {
+				t.Fatalf("%s: script %d has no contract", cp.src, idx)
+			}
+			cp.p.Scripts[idx].Hash = c.Hash
+			txs = append(txs, w.deployTx(c))
+			if len(txs) >= 150 {
+				flush()
+			}
+		}
+		cp.p.Scripts[0].Hash = hash.Hash160(cp.p.Scripts[0].Code)
+	}
+	flush()
+	// the transactions: test VM under the observer, then a block
+	for k, cp := range progs {
+		tx := transaction.New(cp.p.Scripts[0].Code, 0)
+		tx.Nonce = neotest.Nonce()
+		tx.ValidUntilBlock = w.bc.BlockHeight() + 1
+		w.e.SignTx(t, tx, chainSysFee, w.val)
+		ic, err := w.bc.GetTestVM(trigger.Application, tx, nil)
+		if err != nil {
+			t.Fatal(err)
+		}
+		s.rotate()
+		cp.test = execute(res, s.tr, runSpec{Src: cp.src, Prog: cp.p, Limit: chainSysFee, ChainVM: ic.VM})
+		ic.Finalize()
+		s.note("chain", cp.test)
+		res.Inc("chain_runs", 1)
+		// in the block: the same limit, or (a sample) a limit on / just below the gas the test run needed
+		fee := int64(chainSysFee)
+		switch {
+		case k%5 == 1:
+			fee = cp.test.Gas
+		case k%5 == 2 && cp.test.Gas > 0:
+			fee = cp.test.Gas - 1
+		}
+		if fee != chainSysFee {
+			tx = transaction.New(cp.p.Scripts[0].Code, 0)
+			tx.Nonce = neotest.Nonce()
+			tx.ValidUntilBlock = w.bc.BlockHeight() + 1
+			w.e.SignTx(t, tx, fee, w.val)
+		}
+		cp.tx = tx
+		txs = append(txs, tx)
+		if len(txs) >= 100 || k == len(progs)-1 {
+			w.e.AddNewBlock(t, txs...)
+			txs = txs[:0]
+		}
+	}
+	for k, cp := range progs {
+		aer := w.e.GetTxExecResult(t, cp.tx.Hash())
+		st := aer.VMState.String()
+		res.Count([]any{"chain-block", st, cp.test.State, cp.tx.SystemFee == chainSysFee})
+		sig := map[string]any{"part": "xscript", "binding": "chain", "op": "block", "across": ""}
+		switch {
+		case aer.VMState != vmstate.Halt && aer.VMState != vmstate.Fault:
+			sig["kind"] = "Total"
+			res.Violate(sig, fmt.Sprintf("%s: the transaction ended in state %s in its block", cp.src, st), chainReplay(cp))
+		case aer.VMState == vmstate.Halt && aer.GasConsumed > cp.tx.SystemFee:
+			sig["kind"] = "GasBounded"
+			res.Violate(sig, fmt.Sprintf("%s: HALT in the block with %d gas consumed, limit %d", cp.src, aer.GasConsumed, cp.tx.SystemFee), chainReplay(cp))
+		case cp.tx.SystemFee == chainSysFee && (st != cp.test.State || aer.GasConsumed != cp.test.Gas):
+			// not a clause of C12 (determinism is C13 / C01 territory): recorded, not judged
+			res.AddDrift(map[string]any{"part": "xscript", "what": "block execution differs from the observed test execution", "src": cp.src,
+				"block": st, "test": cp.test.State, "gas_block": aer.GasConsumed, "gas_test": cp.test.Gas})
+		}
+		if cp.tx.SystemFee == cp.test.Gas-1 && cp.test.Halted && aer.VMState == vmstate.Halt {
+			sig["kind"] = "GasBounded"
+			res.Violate(sig, fmt.Sprintf("%s: HALT in the block under a limit one below the gas the run needs (%d)", cp.src, cp.test.Gas), chainReplay(cp))
+		}
+		if k%41 == 0 {
+			res.Sample(map[string]any{"src": cp.src, "contracts": len(cp.p.Scripts) - 1, "steps": cp.test.Steps, "test_state": cp.test.State,
+				"block_state": st, "gas": aer.GasConsumed, "system_fee": cp.tx.SystemFee, "unwound_script_contexts": cp.test.Unwinds})
+		}
+	}
+}
+
+// expressible: the behaviour loads at least one callee and all its loads are contract calls
+func expressible(h []MStep) bool {
+	n := 0
+	for _, s := range h {
+		if s.Op == "load" {
+			if s.Kd != "rv1" && s.Kd != "cc0" {
+				return false
+			}
+			n++
+		}
+	}
+	return n > 0
+}
+
+func chainReplay(cp *chainProg) map[string]any {
+	sc := []string{}
+	for _, x := range cp.p.Scripts {
+		sc = append(sc, fmt.Sprintf("%x", x.Code))
+	}
+	return map[string]any{"scripts": sc, "system_fee": cp.tx.SystemFee}
+}
